@@ -519,3 +519,12 @@ Proof.
        dict_of_hist dstep dset keys map fst f_items Nat.eqb length].
   rewrite E. simpl. rewrite Z.eqb_refl. simpl. split; reflexivity.
 Qed.
+
+(* FrozenApprovalBallot(ballot) is ballot.frozen(), whatever the iteration order of the set *)
+Lemma frozen_from_set_fixed enum b : frozen_app_of_ballot enum b = frozen KApp enum b.
+Proof. reflexivity. Qed.
+
+(* before the repair the constructor froze in iteration order: unequal to ballot.frozen() for the same ballot *)
+Lemma frozen_from_set_old_refuted :
+  exists enum b, enum_ok enum /\ feq (frozen_app_of_ballot_old enum b) (frozen KApp enum b) = false.
+Proof. exists enum_ins, bA2. split; [apply enum_ins_ok|vm_compute; reflexivity]. Qed.
